@@ -93,6 +93,15 @@ def r2(ctx):
     falls = [o for o in inloop if o.kind in ("fall", "continue")]
     zero = [o for o in inloop if o.kind == "return"]
     other = [o for o in inloop if o.kind not in ("fall", "continue", "return")]
+    # the zero short-circuit may also be written as `found = …; break` with the zero term returned after the loop: the summaries
+    # then show a `break` in the loop and a return on the "loop was left early" continuation
+    broken_rets = [o for o in after if o.kind == "return" and any(norm(c).startswith("loop_completed") and not pol for c, pol in o.conds)]
+    brk = [o for o in inloop if o.kind == "break"]
+    flag_form = not zero and len(brk) == 1 and len(broken_rets) == 1
+    if flag_form:
+        zero = [sym.Outcome("return", broken_rets[0].value, list(brk[0].conds), brk[0].stmt, brk[0].env, brk[0].loops, brk[0].effects)]
+        other = [o for o in other if o is not brk[0]]
+        after = [o for o in after if o not in broken_rets]
     # the running factor set: the one loop-carried variable that is also read after the loop
     carried = sorted({k for o in falls for k in o.env if k not in lp._sym_env or norm(o.env[k]) != norm(lp._sym_env.get(k))} & {
         n.id for o in after if o.value is not None for n in ast.walk(o.value) if isinstance(n, ast.Name)})
@@ -122,7 +131,7 @@ def r2(ctx):
     ctx.check(okr, "C20.R2", "affected factors are removed and replaced by their derivative, the rest keep their order", line, ctx.construct(f, text="replace"),
               f"expected {F} = ({F} - affected) | _differentiate_factors(affected, {var}, use_sympy=use_sympy); found "
               f"`{norm(falls[0].env[F])[:200] if len(falls) == 1 and F and F in falls[0].env else [repr(o)[:100] for o in falls]}`")
-    ctx.check(not other and len(falls) == 1 and len(zero) <= 1 and not any(o.kind == "break" for o in inloop), "C20.R2",
+    ctx.check(not other and len(falls) == 1 and len(zero) <= 1 and (flag_form or not any(o.kind == "break" for o in inloop)), "C20.R2",
               "each variable is processed by exactly: affected set, zero short-circuit, replacement (no early exit)", line, ctx.construct(f, text="loop shape"),
               f"other ways of leaving an iteration: {[repr(o)[:120] for o in other + falls[1:]]}: an early exit skips the "
               f"zero rule for the remaining variables (d/db of the constant left by d/da must be 0, not 1)")
